@@ -17,32 +17,74 @@ def strip_parens(e):
     return e
 
 
+_UWIDTH = {"unsigned int": 32, "unsigned long": 64, "unsigned long long": 64,
+           "unsigned char": 8, "unsigned short": 16, "size_t": 64}
+_SWIDTH = {"int": 32, "long": 64, "long long": 64, "char": 8, "short": 16,
+           "signed char": 8}
+
+
+def _wrap(v, t):
+    t = (t or "").strip()
+    if t in _UWIDTH:
+        return v & ((1 << _UWIDTH[t]) - 1)
+    if t in _SWIDTH:
+        w = _SWIDTH[t]
+        v &= (1 << w) - 1
+        return v - (1 << w) if v >> (w - 1) else v
+    return v
+
+
 def const_int(e):
-    """Integer value of a constant expression, else None."""
-    e = strip(e)
+    """Integer value of a constant expression (casts to integer types wrap
+    like C), else None."""
     if e is None:
         return None
-    if e.k == "IntegerLiteral":
+    k = e.k
+    if k == "ParenExpr":
+        return const_int(e.kids[0]) if e.kids else None
+    if k in ("ImplicitCastExpr", "CStyleCastExpr"):
+        v = const_int(e.kids[-1]) if e.kids else None
+        if v is None:
+            return None
+        if e.v in ("IntegralCast", "NoOp", "LValueToRValue", "IntegralToBoolean"):
+            return _wrap(v, e.t)
+        if e.v in ("NullToPointer", "IntegralToPointer", "BitCast", "ToVoid",
+                   "IntegralToFloating"):
+            return v
+        return None
+    if k == "IntegerLiteral":
         try:
             return int(e.v)
         except (TypeError, ValueError):
             return None
-    if e.k == "CharacterLiteral":
+    if k == "CharacterLiteral":
         return e.v if isinstance(e.v, int) else None
-    if e.k == "UnaryOperator" and e.v in ("-", "+", "~", "!"):
+    if k == "UnaryExprOrTypeTraitExpr" and e.v == "sizeof":
+        t = ((e.x or {}).get("argType") or (e.kids[0].t if e.kids else "") or "").strip()
+        w = _UWIDTH.get(t) or _SWIDTH.get(t) or {"float": 32, "double": 64}.get(t)
+        return w // 8 if w else None
+    if k == "UnaryOperator" and e.v in ("-", "+", "~", "!"):
         v = const_int(e.kids[0])
         if v is None:
             return None
-        return {"-": -v, "+": v, "~": ~v, "!": int(not v)}[e.v]
-    if e.k == "BinaryOperator" and e.v in ("+", "-", "*", "<<", ">>", "|", "&"):
+        r = {"-": -v, "+": v, "~": ~v, "!": int(not v)}[e.v]
+        return _wrap(r, e.t) if e.v != "!" else r
+    if k == "BinaryOperator" and e.v in ("+", "-", "*", "<<", ">>", "|", "&",
+                                         "<", ">", "<=", ">=", "==", "!="):
         a, b = const_int(e.kids[0]), const_int(e.kids[1])
         if a is None or b is None:
             return None
         try:
-            return {"+": a + b, "-": a - b, "*": a * b, "<<": a << b,
-                    ">>": a >> b, "|": a | b, "&": a & b}[e.v]
+            r = {"+": lambda: a + b, "-": lambda: a - b, "*": lambda: a * b,
+                 "<<": lambda: a << b, ">>": lambda: a >> b, "|": lambda: a | b,
+                 "&": lambda: a & b, "<": lambda: int(a < b), ">": lambda: int(a > b),
+                 "<=": lambda: int(a <= b), ">=": lambda: int(a >= b),
+                 "==": lambda: int(a == b), "!=": lambda: int(a != b)}[e.v]()
         except Exception:
             return None
+        if e.v in ("<", ">", "<=", ">=", "==", "!="):
+            return r
+        return _wrap(r, e.t)
     return None
 
 
